@@ -11,6 +11,7 @@ Section Ops.
   Variable infl : bytes -> option bytes.
   Variable cfg : wcfg.
   Hypothesis Hcap : c_maxFrameHeaderSize < wc_buf cfg.
+  Hypothesis Hnoz : wc_compress cfg = false.      (* no write compression: see the extension below *)
 
   Let masked : bool := negb (wc_server cfg).
   Let run := spec_run (S0 ok) (peer masked) infl.
@@ -30,7 +31,7 @@ Section Ops.
     destruct c as [p|p|p]; simpl chunk_bytes in *; unfold feed.
     - destruct ((2 * wc_buf cfg <? N.of_nat (length p)) && wc_server cfg) eqn:Big.
       + apply andb_true_iff in Big as [_ Hs].
-        destruct (flush_nonfinal_decode ok infl cfg keys w typ frag sofar p Hk Hd Hw) as [fr [keys' [E [K [W D]]]]].
+        destruct (flush_nonfinal_decode ok infl cfg Hcap keys w typ frag sofar p Hk Hd Hw) as [fr [keys' [E [K [W D]]]]].
         { intro Hf. rewrite Hf in Hs. discriminate. }
         { rewrite app_length. exact Hlen. }
         exists fr, keys', (mkMw [] 0 false), (Some (typ, false, sofar ++ p, N.of_nat (length (sofar ++ p)))).
@@ -45,7 +46,7 @@ Section Ops.
         as [em [keys' [w' [frag' [E [K [W [B D]]]]]]]].
       rewrite E. simpl app.
       destruct (N.of_nat (length (m_buf w')) =? cap cfg).
-      + destruct (flush_nonfinal_decode ok infl cfg keys' w' typ frag' (sofar ++ p) [] K Hd W (fun _ => eq_refl))
+      + destruct (flush_nonfinal_decode ok infl cfg Hcap keys' w' typ frag' (sofar ++ p) [] K Hd W (fun _ => eq_refl))
           as [fr [keys'' [E2 [K2 [W2 D2]]]]].
         { rewrite app_nil_r, app_length. exact Hlen. }
         rewrite E2. rewrite app_nil_r in W2, D2.
@@ -98,7 +99,7 @@ Section Ops.
     { simpl. pose proof (cap_pos cfg Hcap). lia. }
     { simpl. exact Hlen. }
     rewrite E. simpl app in *.
-    destruct (flush_final_decode ok infl cfg keys1 w1 typ frag1 (flat_map chunk_bytes cs) [] K Hd W (fun _ => eq_refl))
+    destruct (flush_final_decode ok infl cfg Hcap keys1 w1 typ frag1 (flat_map chunk_bytes cs) [] K Hd W (fun _ => eq_refl))
       as [fr [keys2 [w2 [E2 [K2 D2]]]]].
     { rewrite app_nil_r. exact Hlen. }
     { rewrite app_nil_r. exact Hutf. }
@@ -116,11 +117,12 @@ Section Ops.
         write_message cfg keys typ data = inl (wire, keys') /\ keys_ok keys'
         /\ forall rest, run None (wire ++ rest) = SMsg typ data :: run None rest.
   Proof.
-    intros keys typ data Hk Hd Hlen Hutf. unfold write_message.
-    destruct (wc_server cfg) eqn:Es.
+    intros keys typ data Hk Hd Hlen Hutf. unfold write_message. rewrite Hnoz. simpl negb. rewrite andb_true_r.
+    assert (Hs : wc_server cfg = true \/ wc_server cfg = false) by (destruct (wc_server cfg); auto).
+    destruct Hs as [Es|Es]; rewrite Es.
     - rewrite (data_types typ Hd).
       set (n := N.to_nat (N.min (cap cfg) (N.of_nat (length data)))).
-      destruct (flush_final_decode ok infl cfg keys (mkMw (firstn n data) typ false) typ None (firstn n data) (skipn n data)
+      destruct (flush_final_decode ok infl cfg Hcap keys (mkMw (firstn n data) typ false) typ None (firstn n data) (skipn n data)
                                    Hk Hd (wrel_init typ _)) as [fr [keys' [w' [E [K D]]]]].
       { intro Hf. rewrite Hf in Es. discriminate. }
       { rewrite firstn_skipn. exact Hlen. }
@@ -129,7 +131,8 @@ Section Ops.
     - destruct (stream_decode keys typ [CWrite data] Hk Hd) as [wire [keys' [E [K D]]]].
       { simpl. rewrite app_nil_r. exact Hlen. }
       { simpl. rewrite app_nil_r. exact Hutf. }
-      simpl flat_map in D. rewrite app_nil_r in D. exists wire, keys'. split; [exact E|]. split; [exact K|exact D].
+      simpl flat_map in D. rewrite app_nil_r in D.
+      exists wire, keys'. split; [exact E|]. split; [exact K|exact D].
   Qed.
 
   (* ---- WriteControl *)
@@ -160,8 +163,10 @@ Section Ops.
     { unfold enc_frame, encode_header, masked.
       destruct (N.leb_spec 65536 (N.of_nat (length data))); [lia|].
       destruct (N.ltb_spec 125 (N.of_nat (length data))); [lia|].
-      destruct (wc_server cfg).
-      - inversion E; subst. exists []. split; [reflexivity|]. split; [discriminate|exact Hk].
+      assert (Hs : wc_server cfg = true \/ wc_server cfg = false) by (destruct (wc_server cfg); auto).
+      destruct Hs as [Es|Es]; rewrite Es in E |- *.
+      - inversion E; subst. exists []. split; [|split; [discriminate|exact Hk]].
+        simpl negb. cbv iota. unfold b0_of. rewrite N.add_0_r. reflexivity.
       - destruct (next_key_ok keys Hk) as [K1 K2]. destruct (next_key keys) as [key ks]. simpl in K1, K2.
         inversion E; subst. exists key. split; [|split; [intros _; exact K1|exact K2]].
         simpl negb. cbv iota. unfold b0_of. rewrite N.add_0_r. rewrite (N.add_comm (N.of_nat (length data))). reflexivity. }
@@ -180,3 +185,132 @@ Section Ops.
     - reflexivity.
   Qed.
 End Ops.
+
+(* ---------------------------------------------------------------- sequences of operations *)
+
+Definition op_ok (ok : N -> bool) (o : wop) : Prop :=
+  match o with
+  | OpMessage t d => is_data t /\ N.of_nat (length d) < two63 /\ (t = 1 -> utf8_valid d = true)
+  | OpStream t cs => is_data t /\ N.of_nat (length (flat_map chunk_bytes cs)) < two63
+                     /\ (t = 1 -> utf8_valid (flat_map chunk_bytes cs) = true)
+  | OpPrepared t d pkeys => is_data t /\ N.of_nat (length d) < two63 /\ (t = 1 -> utf8_valid d = true) /\ keys_ok pkeys
+  | OpControl t d => t = 8 -> close_payload_ok ok d
+  | OpZ _ _ _ | OpPreparedZ _ _ _ _ => True
+  end.
+
+Definition is_none {A} (x : option A) : bool := match x with None => true | Some _ => false end.
+
+Lemma prepared_cap : forall cfg, c_maxFrameHeaderSize < wc_buf (prepared_cfg cfg).
+Proof. intro cfg. vm_compute. reflexivity. Qed.
+
+Lemma prepared_noz : forall cfg, wc_compress cfg = false -> wc_compress (prepared_cfg cfg) = false.
+Proof. intros cfg H. exact H. Qed.
+
+Lemma close_at_end_app_noend : forall a b, no_end a -> close_at_end (a ++ b) = a ++ close_at_end b.
+Proof.
+  induction a as [|e a IH]; intros b H; [reflexivity|].
+  simpl. destruct e as [t d|p|o].
+  - f_equal. apply IH. intros o Hi. apply (H o). right. exact Hi.
+  - f_equal. apply IH. intros o Hi. apply (H o). right. exact Hi.
+  - exfalso. apply (H o). left. reflexivity.
+Qed.
+
+Lemma ops_events_all_failed : forall ops (es : list (option werr)),
+    Forall (fun e => is_none e = false) es -> ops_events ops (map is_none es) = [].
+Proof.
+  induction ops as [|o ops IH]; intros es H; [reflexivity|].
+  destruct es as [|e es]; [reflexivity|]. inversion H; subst. simpl. rewrite H2. simpl. apply IH. exact H3.
+Qed.
+
+Section Seq.
+  Variable ok : N -> bool.
+  Variable infl : bytes -> option bytes.
+  Variable cfg : wcfg.
+  Hypothesis Hcap : c_maxFrameHeaderSize < wc_buf cfg.
+  Hypothesis Hnoz : wc_compress cfg = false.
+  Let run := spec_run (S0 ok) (peer (negb (wc_server cfg))) infl.
+
+  (* one operation on a connection that has not sent a close frame: a data message / ping / pong is
+     followed by whatever comes next; a close frame ends the decoding *)
+  Lemma op_decode : forall keys o wire keys' sent' e,
+      keys_ok keys -> op_ok ok o ->
+      write_op cfg keys false o = (wire, keys', sent', e) ->
+      keys_ok keys'
+      /\ match e with
+         | Some _ => wire = [] /\ sent' = false
+         | None =>
+             (sent' = true /\ exists out, message_events (op_type o) (op_data o) = [SEnd out]
+                                         /\ forall rest, run None (wire ++ rest) = [SEnd out])
+             \/ (sent' = false /\ no_end (message_events (op_type o) (op_data o))
+                 /\ forall rest, run None (wire ++ rest) = message_events (op_type o) (op_data o) ++ run None rest)
+         end.
+  Proof.
+    intros keys o wire keys' sent' e Hk Hok E. unfold write_op in E. rewrite Hnoz in E. simpl andb in E. cbv iota in E.
+    assert (Hdata : forall t d w (k' : list bytes), is_data t ->
+               (forall rest, run None (w ++ rest) = SMsg t d :: run None rest) ->
+               (t =? c_CloseMessage) = false
+               /\ no_end (message_events t d)
+               /\ forall rest, run None (w ++ rest) = message_events t d ++ run None rest).
+    { intros t d w k' Hd D. split; [destruct Hd as [-> | ->]; reflexivity|].
+      assert (Em : message_events t d = [SMsg t d]) by (destruct Hd as [-> | ->]; reflexivity).
+      rewrite Em. split; [intros o' [Hi|[]]; discriminate|exact D]. }
+    destruct o as [t d|t cs|t d|t d pkeys|t d zs|t d zs pkeys]; simpl in Hok.
+    - destruct Hok as [Hd [Hlen Hutf]].
+      destruct (message_decode ok infl cfg Hcap Hnoz keys t d Hk Hd Hlen Hutf) as [w [k' [Ew [K D]]]].
+      rewrite Ew in E. destruct (Hdata t d w k' Hd D) as [Hs [Hne D']]. rewrite Hs in E.
+      inversion E; subst. split; [exact K|]. right. split; [reflexivity|]. split; [exact Hne|exact D'].
+    - destruct Hok as [Hd [Hlen Hutf]].
+      destruct (stream_decode ok infl cfg Hcap Hnoz keys t cs Hk Hd Hlen Hutf) as [w [k' [Ew [K D]]]].
+      rewrite Ew in E. destruct (Hdata t (flat_map chunk_bytes cs) w k' Hd D) as [Hs [Hne D']]. rewrite Hs in E.
+      inversion E; subst. split; [exact K|]. right. split; [reflexivity|]. split; [exact Hne|exact D'].
+    - destruct (write_control cfg keys t d) as [[w k']|err] eqn:Ew.
+      + destruct (control_decode ok infl cfg Hcap Hnoz keys t d w k' Hk Ew Hok) as [K [Ht D]].
+        inversion E; subst. split; [exact K|]. simpl op_type. simpl op_data. unfold c_CloseMessage.
+        destruct Ht as [-> | [-> | ->]].
+        * left. split; [reflexivity|].
+          assert (Ex : exists out, message_events 8 d = [SEnd out]).
+          { unfold message_events. simpl. destruct d as [|a [|b text]]; eexists; reflexivity. }
+          destruct Ex as [out Eo]. exists out. split; [exact Eo|]. intro rest. rewrite <- Eo. apply (D rest).
+        * right. split; [reflexivity|]. split; [intros o' [Hi|[]]; discriminate|]. intro rest. apply (D rest).
+        * right. split; [reflexivity|]. split; [intros o' []|]. intro rest. apply (D rest).
+      + inversion E; subst. split; [exact Hk|]. split; reflexivity.
+    - destruct Hok as [Hd [Hlen [Hutf Hpk]]].
+      destruct (message_decode ok infl (prepared_cfg cfg) (prepared_cap cfg) (prepared_noz cfg Hnoz) pkeys t d Hpk Hd Hlen Hutf) as [w [k' [Ew [K D]]]].
+      rewrite Ew in E. destruct (Hdata t d w k' Hd D) as [Hs [Hne D']]. rewrite Hs in E.
+      inversion E; subst. split; [exact Hk|]. right. split; [reflexivity|]. split; [exact Hne|exact D'].
+    - inversion E; subst. split; [exact Hk|]. split; reflexivity.
+    - inversion E; subst. split; [exact Hk|]. split; reflexivity.
+  Qed.
+
+  Lemma write_all_sent : forall ops keys,
+      fst (write_all cfg keys true ops) = [] /\ Forall (fun e => is_none e = false) (snd (write_all cfg keys true ops)).
+  Proof.
+    induction ops as [|o ops IH]; intro keys; simpl; [split; [reflexivity|constructor]|].
+    destruct (IH keys) as [I1 I2]. destruct (write_all cfg keys true ops) as [w es]. simpl in *. subst w.
+    split; [reflexivity|]. constructor; [reflexivity|exact I2].
+  Qed.
+
+  (* Any sequence of write operations: what the strict RFC decoder (as the peer) reads from the wire
+     is exactly the list of messages whose write returned nil, in order; nothing else. *)
+  Theorem roundtrip : forall ops keys,
+      keys_ok keys -> Forall (op_ok ok) ops ->
+      run None (fst (write_all cfg keys false ops))
+      = close_at_end (ops_events ops (map is_none (snd (write_all cfg keys false ops)))).
+  Proof.
+    induction ops as [|o ops IH]; intros keys Hk Hok; [reflexivity|].
+    inversion Hok as [|? ? Ho Hops]; subst.
+    cbn [write_all].
+    destruct (write_op cfg keys false o) as [[[wire keys'] sent'] e] eqn:Eo.
+    destruct (op_decode keys o wire keys' sent' e Hk Ho Eo) as [K R].
+    destruct e as [err|].
+    - destruct R as [-> ->]. specialize (IH keys' K Hops).
+      destruct (write_all cfg keys' false ops) as [w es]. simpl in *. exact IH.
+    - destruct R as [[-> [out [Em D]]]|[-> [Hne D]]].
+      + destruct (write_all_sent ops keys') as [W1 W2].
+        destruct (write_all cfg keys' true ops) as [w es]. simpl in *. subst w.
+        rewrite D. rewrite Em. rewrite (ops_events_all_failed ops es W2). reflexivity.
+      + specialize (IH keys' K Hops).
+        destruct (write_all cfg keys' false ops) as [w es]. simpl in *.
+        rewrite D. rewrite IH. rewrite close_at_end_app_noend by exact Hne. reflexivity.
+  Qed.
+End Seq.
